@@ -291,6 +291,41 @@ Fixpoint mon_hfp (t : Z) (H : Z) (hs : bool) (rd : bool) (resident : bool) (owne
       ok && mon_hfp t1 H hs rd1 resident1 owner1 mark1 clean1 cur r
   end.
 
+(** C07 / C08, the other direction: a hit-for-pass period ENDS.  [bound] = the
+    last second any hit-for-pass marker can still be valid, from the history
+    alone: the latest (second of completion + H) over all fetching requests
+    that ended without a cacheable result, and the latest expiry of any
+    hit-for-pass record seen in the store.  A GET arriving at a later second
+    is never labelled hitForPass (it probes the key again as its fetcher, or
+    waits for the one that does, or is a hit). *)
+Fixpoint mon_hfp_lapse (t : Z) (H : Z) (bound : Z) (prev : list tobs) (fs : list frame) : bool :=
+  match fs with
+  | [] => true
+  | f :: r =>
+      let t1 := match f_op f with OpTick d => (t + d)%Z | _ => t end in
+      let cur := f_threads f in
+      let b1 := match f_op f with
+                | OpRelease i o =>
+                    match nth_obs prev i, o with
+                    | Some (TUpstream LFetching), OCacheable ttl _ => if (0 <? ttl)%Z then bound else Z.max bound ((t1 / 1000) + H)
+                    | Some (TUpstream LFetching), _ => Z.max bound ((t1 / 1000) + H)
+                    | _, _ => bound
+                    end
+                | _ => bound
+                end in
+      let b2 := match f_store f with SoRec HitForPass _ _ ex => Z.max b1 ex | _ => b1 end in
+      let ok :=
+        match f_op f with
+        | OpArrive false =>
+            match nth_obs cur (length prev) with
+            | Some (TUpstream LHitForPass) => ((t1 / 1000) <=? b2)%Z
+            | _ => true
+            end
+        | _ => true
+        end in
+      ok && mon_hfp_lapse t1 H b2 cur r
+  end.
+
 (** C18 / C10: when a purge is issued while nothing is in flight or parked,
     the store holds nothing afterwards if its delete succeeded, and — whenever
     the store holds nothing, also after a failed delete — the next request goes
@@ -369,8 +404,8 @@ Definition mon_all (c : fl_case) : list bool :=
   [ mon_c01 1 fs && mon_wake [] fs;
     mon_final fs;
     mon_lifecycle [] fs;
-    mon_fresh (fc_t0 c) [] [] fs;
-    mon_hfp (fc_t0 c) H (fc_store c) true false None None true [] fs;
+    mon_fresh (fc_t0 c) [] [] fs && mon_hfp_lapse (fc_t0 c) H 0 [] fs;
+    mon_hfp (fc_t0 c) H (fc_store c) true false None None true [] fs && mon_hfp_lapse (fc_t0 c) H 0 [] fs;
     mon_purge false [] fs;
     mon_own_answer [] fs ].
 
